@@ -97,8 +97,11 @@ func zzDrawModel(r *simcore.Run) (*zzModel, zzC12Cfg) {
 // the run
 
 type zzC12 struct {
-	r *simcore.Run
-	w *zzWorld
+	ioFaults int  // injected write failures so far
+	ioFired  int  // ... that met a write
+	ioBlock  bool // the block being processed runs with a failing write armed
+	r        *simcore.Run
+	w        *zzWorld
 
 	closeStim   int
 	sawFC       bool
@@ -211,6 +214,9 @@ func (x *zzC12) enabled() []string {
 		// appended after the ops older tapes know
 		ops = append(ops, "link-up")
 	}
+	if !w.frozen && x.ioFaults < 2 {
+		ops = append(ops, "block!io")
+	}
 	// close triggers are the rarer choice (a zeroed draw means none)
 	if !x.r.Chance(1, 3) {
 		return ops
@@ -253,6 +259,21 @@ func (x *zzC12) apply(op string) {
 		x.block(1)
 	case "skip":
 		x.block(2 + r.Draw(6))
+	case "block!io":
+		// the database fails one write while this block is processed (disk
+		// error); the node keeps running. The block itself is excused,
+		// every later block is judged as usual: the node has to try again.
+		x.ioFaults++
+		w.kv.FailWrite(1)
+		x.ioBlock = true
+		x.block(1)
+		x.ioBlock = false
+		if w.kv.FiredFail > 0 {
+			r.Count("fault_arbitrator_log_write_failed")
+			x.ioFired++
+		}
+		w.kv.FiredFail = 0
+		w.kv.Disarm()
 	case "link-up":
 		w.nextStim("the channel's link comes up (peer reconnected)")
 		w.linkUps++
@@ -364,7 +385,9 @@ func (x *zzC12) afterBlockLike(fcBefore int) {
 	}
 	if why := x.mustClose(); why != "" {
 		r.Count("probe_must_close_cell")
-		if fc == 0 {
+		if fc == 0 && x.ioBlock && w.kv.FiredFail > 0 {
+			r.Count("probe_must_close_excused_by_write_failure")
+		} else if fc == 0 {
 			r.Fail("no-force-close", "height %d processed, %s on the local commitment is past its broadcast cut-off "+
 				"(outDelta=%d inDelta=%d uptime=%v grace=%v) but ForceCloseChan was never invoked (arbitrator state %v)",
 				w.height, why, w.cfg.outDelta, w.cfg.inDelta, x.uptime(), w.cfg.grace, w.inc.arb.state)
@@ -610,7 +633,11 @@ func (x *zzC12) checkFailBacks(final bool) {
 			}
 		case onC && h.dust[conf]:
 			r.Count("probe_offered_dust_on_confirmed")
-			if n > 1 {
+			if n > 1 && n <= 1+x.ioFired {
+				// a stage whose state commit failed is executed again at the
+				// next block and repeats its (identical) fail-back
+				r.Count("probe_fail_back_repeated_after_write_failure")
+			} else if n > 1 {
 				r.Fail("fail-back-twice", "%s commitment confirmed: dust %v failed back upstream %d times", name, h, n)
 			}
 			if n == 0 {
@@ -619,7 +646,9 @@ func (x *zzC12) checkFailBacks(final bool) {
 			}
 		case onOther && !m.known(h.hashNo):
 			r.Count("probe_offered_only_on_unconfirmed")
-			if n > 1 {
+			if n > 1 && n <= 1+x.ioFired {
+				r.Count("probe_fail_back_repeated_after_write_failure")
+			} else if n > 1 {
 				r.Fail("fail-back-twice", "%s commitment confirmed: %v (only on a non-confirmed commitment) failed back upstream %d times", name, h, n)
 			}
 			if n == 0 {
@@ -630,7 +659,10 @@ func (x *zzC12) checkFailBacks(final bool) {
 		case onOther:
 			r.Count("probe_open_case_dangling_with_preimage")
 		default:
-			if n > 0 {
+			if n > 0 && x.ioFired > 0 {
+				r.FailOrKnown("fail-back-unknown-htlc", "commit-failed/removed-later",
+					"%v is on none of the commitments but was failed back upstream %d time(s) (a state commit had failed earlier in this run)", h, n)
+			} else if n > 0 {
 				r.Fail("fail-back-unknown-htlc", "%v is on none of the commitments but was failed back upstream %d time(s)", h, n)
 			}
 		}
@@ -687,6 +719,12 @@ func zzFailSig(x *zzC12, h *zzHtlc, conf int) string {
 		}
 	}
 	pre := "default"
+	if x.ioFired > 0 {
+		// a state commit failed while the node was deciding to go on chain:
+		// what that stage had already done (dust fail-backs) stands, the
+		// broadcast did not follow
+		pre = "commit-failed"
+	}
 	for _, e := range x.w.effects {
 		if e.kind == "fc" && e.stim < x.closeStim {
 			pre = "broadcast"
